@@ -401,6 +401,17 @@ pub fn error_propagated(ys: &[i32]) -> Result<Vec<u16>, String> {
     ys.iter().map(|y| fallible_year(*y)).collect()
 }
 
+pub struct CtlError;
+
+fn fallible_year_ctl(y: i32) -> Result<u16, CtlError> {
+    u16::try_from(y).map_err(|_| CtlError)
+}
+
+/// `Result` is IntoIterator: flat_map silently drops every Err
+pub fn error_flattened(ys: &[i32]) -> Vec<u16> {
+    ys.iter().flat_map(|y| fallible_year_ctl(*y)).collect()
+}
+
 // ---------------------------------------------------------------- C13 controls (matched text compared case-sensitively)
 pub struct TextNode<'a>(pub &'a str);
 impl<'a> TextNode<'a> {
@@ -415,4 +426,13 @@ pub fn keyword_test_case_sensitive(n: &TextNode) -> bool {
 
 pub fn keyword_test_folded_ok(n: &TextNode) -> bool {
     n.as_str().to_uppercase().starts_with("UNSPLIT") || n.as_str().eq_ignore_ascii_case("unsplit") || n.as_str().starts_with('#')
+}
+
+// ---------------------------------------------------------------- C17 controls (precision on text clips it)
+pub fn fmt_text_clipped(cell: &str, width: usize) -> String {
+    format!("{:<width$.width$}", cell)
+}
+
+pub fn fmt_text_padded_ok(cell: &str, d: Decimal) -> String {
+    format!("{:<12}{:.2}", cell, d)
 }
